@@ -96,17 +96,35 @@ def art_deep(tier):
 
 
 def chess_replay(arts, props, perft=0, timeout=3600):
-    """Replays chess artefacts (all generated from the same root list) into the engine."""
-    run = vlib.scratch("chess")
-    try:
-        out = os.path.join(run, "res.json")
-        args = ["chess-replay", "-roots", os.path.join(arts[0], "roots.ndjson"),
-                "-obs", ",".join(vlib.art_out(a) for a in arts), "-props", ",".join(props),
-                "-perft", perft, "-seed", SEED, "-out", out]
-        return vlib.run_driver(args, timeout=timeout, cwd=run)
-    finally:
-        import shutil
-        shutil.rmtree(run, ignore_errors=True)
+    """Replays chess artefacts into the engine. Artefacts generated from the same root list are replayed together (one
+    driver run: transpositions and keys are compared across them); the results of the groups are merged."""
+    import shutil
+    groups = {}
+    for a in arts:
+        groups.setdefault(open(os.path.join(a, "roots.ndjson")).read(), []).append(a)
+    merged = None
+    for grp in groups.values():
+        run = vlib.scratch("chess")
+        try:
+            out = os.path.join(run, "res.json")
+            args = ["chess-replay", "-roots", os.path.join(grp[0], "roots.ndjson"),
+                    "-obs", ",".join(vlib.art_out(a) for a in grp), "-props", ",".join(props),
+                    "-perft", perft, "-seed", SEED, "-out", out]
+            res = vlib.run_driver(args, timeout=timeout, cwd=run)
+        finally:
+            shutil.rmtree(run, ignore_errors=True)
+        if merged is None:
+            merged = res
+            continue
+        merged["discs"] = (merged.get("discs") or []) + (res.get("discs") or [])
+        for key in ("disc_count", "counters"):
+            for k, v in (res.get(key) or {}).items():
+                merged.setdefault(key, {})
+                merged[key][k] = merged[key].get(k, 0) + v
+        for k, v in (res.get("samples") or {}).items():
+            merged.setdefault("samples", {}).setdefault(k, [])
+            merged["samples"][k] += v
+    return merged
 
 
 def engine_games(ck, prop, tier, kinds):
